@@ -2493,7 +2493,11 @@ class PhonopyConfParser(ConfParser):
             else:
                 self._settings.set_run_mode("mesh")
 
-        if "mesh_numbers" in params and "band_paths" in params:
+        if (
+            self._settings.mesh_numbers is not None
+            and self._settings.band_paths is not None
+            and self._settings.run_mode in ("band", "mesh")
+        ):
             self._settings.set_run_mode("band_mesh")
 
         # SSCHA
